@@ -344,6 +344,66 @@ def check_flush_reaches_int(rep, mod, K):
                 'and, for a full flush, the match history was not cleared' % (name, bad[0][0] if bad else '', bad[0][1] if bad else ''), key='R-FLUSH-REACHES-INT|' + name, sample='%s: every success return runs the state machine' % name)
 
 
+def check_retry_buffered(rep, mod):
+    """isal_deflate works from its internal buffer when the caller's pieces are small: the input is copied (and counted as consumed), then a pass of the state machine runs.  A pass
+    that is entered with the marker of an EARLIER flush still pending only completes that marker.  The loop around the pass therefore has to be able to run again although the
+    caller's avail_in is 0 - otherwise the call returns with avail_in == 0, avail_out > 0 and state ZSTATE_NEW_HDR (what the header calls a completed flush) while the bytes of
+    this call sit unprocessed in the buffer."""
+    import c19
+    R = rep.rule('R-RETRY-BUFFERED', 'isal_deflate: the loop around isal_deflate_int can repeat without new input from the caller: with the true edges of every "stream->avail_in > 0 / != 0" test inside the '
+                 'loop removed, the loop header is still reachable from the call of isal_deflate_int (a pass that only completed an earlier flush is followed by one that compresses what this call buffered)',
+                 floor=1, unit='retry loops')
+    f = mod.funcs.get('isal_deflate')
+    if f is None:
+        raise AnalysisBroken('isal_deflate not found')
+    P = irrules.prov(mod, f)
+    ai = c19.field_offsets('struct isal_zstream', ['avail_in'])['avail_in']
+    calls = [i for i in f.all_insns() if i.op == 'call' and i.callee == 'isal_deflate_int']
+    if len(calls) != 1:
+        raise AnalysisBroken('isal_deflate: expected one call of isal_deflate_int, found %d' % len(calls))
+    loops = irrules.natural_loops(f)
+    cand = [(h, body) for h, body in loops.items() if calls[0].block in body]
+    if not cand:
+        raise AnalysisBroken('isal_deflate: the call of isal_deflate_int is not inside a loop')
+    h, body = min(cand, key=lambda hb: len(hb[1]))
+    R.instance()
+    cut = set()
+    for b, t, c in irrules.cond_branches(mod, f):
+        if b not in body or c is None or c.op != 'icmp' or c.ops[1] != '0' or c.extra['pred'] not in ('ugt', 'ne'):
+            continue
+        d = f.defs.get(irrules._strip(f, c.ops[0]))
+        if d is not None and d.op == 'load' and P.atoms(d.ops[0]) == {('param', 0, ai)}:
+            cut.add((b, t.extra['targets'][0]))
+    if not cut:
+        raise AnalysisBroken('isal_deflate: no test of stream->avail_in > 0 inside the retry loop')
+    seen, work = set(), [(calls[0].block, None)]
+    back = False
+    while work:
+        b, frm = work.pop()
+        if (b, frm) in seen:
+            continue
+        seen.add((b, frm))
+        succs = list(f.blocks[b].succs)
+        t = f.blocks[b].insns[-1]
+        cd = f.defs.get(t.extra.get('cond', '')) if t.op == 'br' and t.extra.get('cond') else None
+        if cd is not None and cd.op == 'phi' and cd.block == b and frm is not None:
+            # the merge block of a short-circuit && / ||: on the edge from a failed test the condition is the constant that edge carries
+            inc = [v for v, pb in cd.extra['incoming'] if pb == frm]
+            if inc and inc[0] in ('false', '0'):
+                succs = [t.extra['targets'][1]]
+            elif inc and inc[0] in ('true', '1'):
+                succs = [t.extra['targets'][0]]
+        for s_ in succs:
+            if (b, s_) in cut or s_ not in body:
+                continue
+            if s_ == h:
+                back = True
+            work.append((s_, b))
+    R.check(back, mod.where(f, calls[0]), 'isal_deflate: the loop around isal_deflate_int repeats only while the caller\'s avail_in is non-zero.  Input that this call copied into the internal buffer is left '
+            'uncompressed when the pass merely completed an earlier flush marker: the call returns avail_in == 0, avail_out > 0, state ZSTATE_NEW_HDR - "all input has been flushed" according to igzip_lib.h - and '
+            'the output so far does not decode to everything fed so far', key='R-RETRY-BUFFERED|isal_deflate', sample='isal_deflate: the retry loop has a path back to its header that does not need avail_in > 0')
+
+
 def main(tier):
     rep = Report('C14', tier, level='other')
     rep.undecided = UNDECIDED
@@ -361,6 +421,7 @@ def main(tier):
     rep.attempt(check_hashmask_stable, rep, mod, K)
     rep.attempt(check_mask_width, rep, mod)
     rep.attempt(check_flush_reaches_int, rep, mod, K)
+    rep.attempt(check_retry_buffered, rep, mod)
     import c17
     rep.attempt(c17.check_masked_nohist, rep, mod)
     rep.attempt(c17.check_hist_after_space, rep)      # after a full flush has_hist is IGZIP_NO_HIST again: the mask-only finder must not look the first position up
